@@ -1,7 +1,7 @@
 (* Small model-level lemmas used by the property files C09, C10, C16, C20. *)
 From Coq Require Import List ZArith Lia Bool Arith.
 From RecordUpdate Require Import RecordUpdate.
-From FV Require Import ListLemmas Kernel SrcFragments TieB Accounting World Factory.
+From FV Require Import ListLemmas Kernel SrcFragments Lens Accounting World Factory.
 From FV Require StoreB.
 Import ListNotations.
 Open Scope Z_scope.
